@@ -121,6 +121,9 @@ type Evidence struct {
 	Violations  int                    `json:"violations"`
 }
 
+// crashProp: the property that is the union of the panic-freedom obligations of every function under contract.
+const crashProp = "C10"
+
 func checkCmd(args []string) {
 	if len(args) < 2 {
 		fmt.Fprintln(os.Stderr, "usage: gvc check <property> quick|thorough")
@@ -223,6 +226,19 @@ func checkCmd(args []string) {
 		for a := range vc.assumed {
 			assumptions[a] = true
 		}
+		if prop == crashProp {
+			// "no input crashes the engine": the obligations that stand for a run-time panic or a hang, plus what
+			// they rest on inside the same function (call preconditions, loop invariants). Postconditions and
+			// frames are discharged under the properties their contracts name and are only assumed here.
+			var keep []*Result
+			for _, r := range rs {
+				if strings.HasPrefix(r.Class, "safe:") || r.Class == "call-pre" || strings.HasPrefix(r.Class, "invariant-") || r.Class == "decreases" {
+					keep = append(keep, r)
+				}
+			}
+			rs = keep
+			assumptions["postconditions and frames of the functions listed here are assumed in this check; they are discharged under the properties named in their contracts"] = true
+		}
 		all = append(all, rs...)
 		all = append(all, vc.coverQuery())
 		for callee := range vc.usedCallees {
@@ -242,7 +258,7 @@ func checkCmd(args []string) {
 			continue
 		}
 		for _, l := range pc.Lemmas {
-			if !hasProp(l.Props, prop) && !usedLemmas[ip+"."+l.Name] {
+			if (!hasProp(l.Props, prop) || prop == crashProp) && !usedLemmas[ip+"."+l.Name] {
 				continue
 			}
 			r, as := P.lemmaObligation(pkg, pc, l)
